@@ -128,7 +128,9 @@ def check(run):
         # call-site guards for helpers: union = weakest; we require each call site to be hinted (done via R04.1 on the caller)
         filled_flags = {}
         for lp, rhs, node, g, st in assigns:
-            if lp and len(lp) == 1 and lp[0].startswith("l:") and lp[0].split("#")[0].endswith("_filled") and const_value(rhs) in (1, True):
+            # a "filled" flag: a local bool that starts false and is set to true next to the insertion (whatever its name)
+            if lp and len(lp) == 1 and lp[0].startswith("l:") and const_value(rhs) in (1, True) and \
+                    (unwrap(node.get("lhs") if node.get("k") == "Bin" else {}) or {}).get("t") == "bool" and const_value(env.defs.get(lp[0])) in (0, False):
                 filled_flags.setdefault(g, set()).add(lp[0])
         for lp, rhs, node, g, st in assigns:
             if lp is None or not lp[0].startswith("l:") or len(lp) < 2:
@@ -186,7 +188,10 @@ def check(run):
                                 if any(path(unwrap_all_casts(a)) == (lp[0],) for a in c.get("args", [])):
                                     stores.append((c, g2))
                         for lp2, rhs2, node2 in consumption.assignment_targets([st2]):
-                            if path(unwrap_all_casts(rhs2)) == (lp[0],) and lp2 and lp2[0] != lp[0]:
+                            r2 = unwrap_all_casts(rhs2)
+                            while isinstance(r2, dict) and r2.get("k") == "Construct" and len(r2.get("args", [])) == 1:
+                                r2 = unwrap_all_casts(r2["args"][0])      # optional<T>(value), copies
+                            if path(r2) == (lp[0],) and lp2 and lp2[0] != lp[0]:
                                 stores.append((node2, g2))
                     okf = bool(stores) and all(any(("nz", fl) in conjuncts(g2) for fl in flags) or g2 == ("T",) for c, g2 in stores)
                     run.ob("R04.3", "%s:reachable" % key, okf, fn, node.get("l", 0),
